@@ -68,8 +68,29 @@ def stall_sweep(tier):
     return out
 
 
+def peer_target(rng):
+    """The target is *another caller's own loop*, running natively in that caller's thread (no helper started it, so
+    nobody holds the helpers' per-loop lock): C1 awaits a long coroutine on its own loop, C2 (and C3) target C1's
+    loop meanwhile."""
+    out = []
+    for n_peers in (1, 2):
+        for start in (0.0, 1.0):
+            for fn in ('ensure_aw', 'run_aw_threadsafe'):
+                for outc in ('val', 'exc'):
+                    for dur in (0.0, 2.0):
+                        callers = [{'c': 1, 'thr': 'C1', 'start': 0.0, 'fn': 'ensure_aw', 'to': 'own',
+                                    'aw': {'kind': 'coro', 'out': 'val', 'dur': 8.0}}]
+                        for i in range(n_peers):
+                            callers.append({'c': i + 2, 'thr': 'C%d' % (i + 2), 'start': start + i * 0.5, 'fn': fn, 'to': 'C1',
+                                            'aw': {'kind': 'coro', 'out': outc, 'exccls': 'runtime', 'dur': dur}})
+                        for st in ({'kind': 'replay', 'prefix': []}, strat(rng)):
+                            out.append({'target': 'idle', 'callers': [dict(c, aw=dict(c['aw'])) for c in callers],
+                                        'stop_at': 0.0, 'strategy': st})
+    return out
+
+
 def nontrivial(sc, r):
-    return sum(1 for c in sc['callers'] if c['to'] == 'T') >= 1
+    return sum(1 for c in sc['callers'] if c['to'] != 'own') >= 1
 
 
 def known_match(k, clause, idx, sc, r):
@@ -99,6 +120,7 @@ def run(ctx):
             executed.extend(out)
     ctx.run_and_validate(DRIVER, COMP, TRACE, stall_sweep(ctx.tier), 'stall_sweep', nontrivial=nontrivial,
                          known_match=known_match)
+    ctx.run_and_validate(DRIVER, COMP, TRACE, peer_target(rng), 'peer_target', known_match=known_match)
     # programs in the scope of CrossLoop.tla (every caller ensure_aw(coroutine, T)) for the conformance sample
     extra = gen(rng, 300, modes=('idle', 'lit', 'closed'))
     for sc in extra:
